@@ -29,6 +29,7 @@ import (
 	"github.com/btcsuite/btcd/wire"
 	"github.com/elementsproject/peerswap/onchain"
 	"github.com/elementsproject/peerswap/swap"
+	"github.com/vulpemventures/go-elements/address"
 	"github.com/vulpemventures/go-elements/network"
 )
 
@@ -103,6 +104,48 @@ func c02ChainScript(ch c02Chain, p *swap.OpeningParams) (redeem []byte, csv uint
 		}
 	}
 	return nil, 0, nil, fmt.Errorf("%s: no ParamsToTxScript(params, csv) hashes to the output script the chain commits to", ch.name)
+}
+
+// c02Wallet is the only fake: the Liquid wallet daemon.  It records the
+// address the node asks it to fund and then fails.
+type c02Wallet struct{ addr string }
+
+func (w *c02Wallet) GetAddress() (string, error)                 { return "", fmt.Errorf("fake") }
+func (w *c02Wallet) SendToAddress(string, uint64) (string, error) { return "", fmt.Errorf("fake") }
+func (w *c02Wallet) GetBalance() (uint64, error)                 { return 0, nil }
+func (w *c02Wallet) CreateAndBroadcastTransaction(p *swap.OpeningParams, asset []byte) (string, string, uint64, error) {
+	w.addr = p.OpeningAddress
+	return "", "", 0, fmt.Errorf("fake wallet: not broadcasting")
+}
+func (w *c02Wallet) SendRawTx(string) (string, error)     { return "", fmt.Errorf("fake") }
+func (w *c02Wallet) GetFee(int64) (uint64, error)          { return 0, fmt.Errorf("fake") }
+func (w *c02Wallet) SetLabel(string, string, string) error { return nil }
+func (w *c02Wallet) Ping() (bool, error)                   { return true, nil }
+
+// c02CreationScript returns the output script of the address the node funds
+// when it creates the opening transaction (Bitcoin: CreateOpeningAddress as
+// called by the cln/lnd wallets; Liquid: CreateOpeningTransaction up to the
+// wallet call).
+func c02CreationScript(ch c02Chain, p *swap.OpeningParams, r *Rng) ([]byte, error) {
+	if !ch.liquid {
+		a, err := c02Btc.CreateOpeningAddress(p, onchain.BitcoinCsv)
+		if err != nil {
+			return nil, err
+		}
+		ad, err := btcutil.DecodeAddress(a, &chaincfg.RegressionNetParams)
+		if err != nil {
+			return nil, err
+		}
+		return txscript.PayToAddrScript(ad)
+	}
+	w := &c02Wallet{}
+	q := *p
+	q.BlindingKey = c02RandKey(r)
+	onchain.NewLiquidOnChain(w, &network.Regtest).CreateOpeningTransaction(&q)
+	if w.addr == "" {
+		return nil, fmt.Errorf("liquid CreateOpeningTransaction did not reach the wallet")
+	}
+	return address.ToOutputScript(w.addr)
 }
 
 // ---------- Coq printers
@@ -301,14 +344,20 @@ func c02ChainFamily(cf *CaseFile, r *Rng, n int) error {
 			h[j] = byte(r.U64())
 		}
 		p := c02OpeningParams(ch, hex.EncodeToString(tk), hex.EncodeToString(mk), hex.EncodeToString(h))
-		rs, csv, _, err := c02ChainScript(ch, p)
+		rs, csv, pk, err := c02ChainScript(ch, p)
 		if err != nil {
 			return err
 		}
-		term := fmt.Sprintf("CChain %d%%N %s %s %s %d%%Z %s", ch.id, coqBytes(tk), coqBytes(mk), coqBytes(h), p.CSV, coqBytes(rs))
+		created, err := c02CreationScript(ch, p, r)
+		if err != nil {
+			return err
+		}
+		same := bytes.Equal(created, pk)
+		term := fmt.Sprintf("CChain %d%%N %s %s %s %d%%Z %s %s", ch.id, coqBytes(tk), coqBytes(mk), coqBytes(h), p.CSV, CoqBool(same), coqBytes(rs))
 		cf.Add(term, fmt.Sprintf("chain|%d|%x|%x|%x", ch.id, tk, mk, h), true, "chain:"+ch.name,
 			map[string]interface{}{"family": "chain", "fn": "GetOpeningParams+GetOutputScript", "chain": ch.name, "taker": hex.EncodeToString(tk),
-				"maker": hex.EncodeToString(mk), "hash": hex.EncodeToString(h), "policy_csv": p.CSV, "script_csv": csv, "script": hex.EncodeToString(rs)})
+				"maker": hex.EncodeToString(mk), "hash": hex.EncodeToString(h), "policy_csv": p.CSV, "script_csv": csv, "script": hex.EncodeToString(rs),
+				"output_script_validated": hex.EncodeToString(pk), "output_script_funded_at_creation": hex.EncodeToString(created)})
 	}
 	return nil
 }
